@@ -304,10 +304,27 @@ def setup_base_orchestrator(
     root = get_or_detect_project_root(path_objs, project_root)
     orchestrator = Orchestrator(project_root=root)
 
+    config_file = config_file or group_config_file()
     if config_file:
         load_config_file(orchestrator, config_file, verbose)
 
     return orchestrator
+
+
+def group_config_file() -> str | None:
+    """Config file given before the command (``thailint --config FILE nesting .``).
+
+    The documented global form used to decide the project root only; the file itself was
+    never loaded unless it happened to be the root's auto-discovered ``.thailint.yaml``.
+    A ``--config`` given after the command name takes precedence, and so does an explicit
+    ``--project-root``: its configuration is the one that applies (documented priority order).
+    """
+    ctx = click.get_current_context(silent=True)
+    obj = ctx.find_root().obj if ctx is not None else None
+    if not isinstance(obj, dict) or obj.get("cli_project_root"):
+        return None
+    path = obj.get("cli_config_path")
+    return str(path) if path else None
 
 
 def load_config_file(orchestrator: "Orchestrator", config_file: str, verbose: bool) -> None:
